@@ -53,6 +53,65 @@ func c34Each(pairs []string) (string, []string) {
 	return strings.Join(append([]string{"each"}, parts...), " "), names
 }
 
+// c34CaseCI drives the caseInsensitive = true mode (what ListEnviron uses on Windows) through the
+// verif hook, with ASCII names: Get vs the folded model (`ciget`), vs the case-insensitive map
+// (`specci`, and a Go oracle), and Each vs the model (`cieach`).
+func c34CaseCI(c *Ctx, pairs []string, names []string) {
+	up := strings.ToUpper
+	m := map[string]string{}
+	for _, p := range pairs {
+		n, v, ok := strings.Cut(p, "=")
+		if !ok || n == "" {
+			continue
+		}
+		m[up(n)] = v
+	}
+	c.Case("ci\x00"+strings.Join(pairs, "\x00"), len(m) >= 2, fmt.Sprintf("cipairs=%d", len(pairs)), "mode=case-insensitive")
+	for _, name := range names {
+		got := "unset"
+		if p := safely(func() {
+			v := expand.VerifListEnviron(true, pairs...).Get(name)
+			if v.IsSet() {
+				got = "val " + hx(v.Str)
+			}
+		}); p != "" {
+			got = "panic"
+		}
+		c.Op("ciget "+hx(name)+" "+hxs(pairs), got)
+		c.Op("specci "+hx(name)+" "+hxs(pairs), got)
+		want := "unset"
+		if v, ok := m[up(name)]; ok && !strings.Contains(name, "=") {
+			want = "val " + hx(v)
+		}
+		if got != want {
+			c.Fail("ciget "+hx(name)+" "+hxs(pairs), fmt.Sprintf("listEnviron_(true, %q).Get(%q) = %s, case-insensitive map oracle says %s", pairs, name, got, want))
+		}
+	}
+	var parts, eachNames []string
+	ep := safely(func() {
+		expand.VerifListEnviron(true, pairs...).Each(func(name string, vr expand.Variable) bool {
+			parts = append(parts, hx(name)+":"+hx(vr.Str))
+			eachNames = append(eachNames, up(name))
+			return true
+		})
+	})
+	got := strings.Join(append([]string{"each"}, parts...), " ")
+	if ep != "" {
+		got = "panic"
+	}
+	c.Op("cieach "+hxs(pairs), got)
+	want := []string{}
+	for n := range m {
+		want = append(want, n)
+	}
+	sort.Strings(want)
+	// Each yields every surviving name exactly once (the order, by `NAME=` keys, is the model's business)
+	sort.Strings(eachNames)
+	if got == "panic" || strings.Join(eachNames, "\x00") != strings.Join(want, "\x00") {
+		c.Fail("cieach "+hxs(pairs), fmt.Sprintf("Each names (folded) %q, oracle %q", eachNames, want))
+	}
+}
+
 func c34Case(c *Ctx, pairs []string, names []string) {
 	// Go map oracle (the property's own words).
 	m := map[string]string{}
@@ -195,6 +254,42 @@ func c34(c *Ctx) {
 			}
 		}
 		c34Case(c, pairs, names)
+		if i%4 == 0 {
+			// case-insensitive mode: ASCII names that differ in case only, prefixes of each other, short pairs
+			// next to long looked-up names (seeded change C34-3 broke Get's too-short branch there)
+			ciAlpha := []string{"a", "A", "ab", "Ab", "AB", "aB", "abc", "ABC", "Path", "PATH", "path", "PATHEXT", "PathExtensions", "PATHEXTENSIONS",
+				"z", "Z", "_x", "_X", "a1", "A1", "a_", "A+", "b", "B", "Ba", "bA", "X9z", "x9Z"}
+			n := r.Intn(10)
+			if r.Intn(5) == 0 {
+				n = 13 + r.Intn(30)
+			}
+			var cp []string
+			for j := 0; j < n; j++ {
+				switch k := r.Intn(16); {
+				case k == 0:
+					cp = append(cp, r.Pick(ciAlpha))
+				case k == 1:
+					cp = append(cp, "="+r.Pick(valAlpha))
+				default:
+					cp = append(cp, r.Pick(ciAlpha)+"="+r.Pick([]string{"", "v", "V", "x=y", "/bin", ".EXE", "b", "B", fmt.Sprint(j)}))
+				}
+			}
+			var cn []string
+			for _, p := range cp {
+				nm, _, _ := strings.Cut(p, "=")
+				cn = append(cn, nm, strings.ToUpper(nm), strings.ToLower(nm))
+			}
+			cn = append(cn, r.Pick(ciAlpha), r.Pick(ciAlpha)+r.Pick(ciAlpha), "", r.Pick(ciAlpha)+"=v")
+			seenN := map[string]bool{}
+			var cn2 []string
+			for _, x := range cn {
+				if !seenN[x] {
+					seenN[x] = true
+					cn2 = append(cn2, x)
+				}
+			}
+			c34CaseCI(c, cp, cn2)
+		}
 	}
 }
 
